@@ -544,6 +544,25 @@ class Gen:
                     self.emit(1, f"want_good_{n}(x_{n})")
                     self.emit(1, f"x_{n}.definitely_not_an_attribute")
             self.emit(1, "return q")
+        # builtins whose stubs are generic protocols sharing a type variable between parameters
+        # (pow: _SupportsPow2[_E, _T_co] x _E, divmod, round, sum, max/min with key, sorted with key):
+        # the same first argument with CONFLICTING second arguments, in this program and in its history
+        n = self.fresh("bp")
+        firsts = r.sample([("fractions", "fractions.Fraction"), ("decimal", "decimal.Decimal"), ("", "int"), ("", "float"),
+                           ("", "complex"), ("", "bool"), ("", "str"), ("datetime", "datetime.timedelta")], r.randrange(1, 3))
+        for mod, _t in firsts:
+            if mod:
+                self.emit(0, f"import {mod}")
+        self.emit(0, f"def {n}({', '.join(f'q{i}: {t}' for i, (_m, t) in enumerate(firsts))}, other=None):")
+        seconds = ["2", "1j", "2.5", "'x'", "None", "-1", "0", "True", "q0", "other", "(1,)", "b'x'"]
+        for _ in range(r.randrange(3, 8)):
+            q = f"q{r.randrange(len(firsts))}"
+            sec = r.choice(seconds)
+            call = r.choice([f"pow({q}, {sec})", f"pow({q}, {sec}, {r.choice(seconds)})", f"divmod({q}, {sec})", f"round({q}, {sec})",
+                             f"sum([{q}], {sec})", f"max({q}, {sec})", f"min({q}, {sec}, key=abs)", f"sorted([{q}, {sec}], key=abs)",
+                             f"abs({q})", f"{q} ** {sec}", f"{q} // {sec}", f"{q} % {sec}", f"{sec} ** {q}"])
+            self.emit(1, r.choice([f"reveal_type({call})", f"v{self.uid}: int = {call}", call]))
+        self.emit(1, f"return pow(q0, 2)")
         # generic protocols of the standard library with varying type arguments
         g = r.choice(STD_GENERICS)
         n = self.fresh("proto")
